@@ -22,7 +22,9 @@ EXPLANATION = (
     'connections[...] / SQLExecutor / DatabaseState / atomic is fed from the '
     'function\'s or object\'s database, and a callee that takes a database '
     'parameter is given the caller\'s one; '
-    'R-C16.5 the pending-mutation filter exempts from the changed-models test only model-less mutations and RenameModel (evaluated over the mutation class hierarchy).')
+    'R-C16.5 the pending-mutation filter exempts from the changed-models test only model-less mutations and RenameModel (evaluated over the mutation class hierarchy).'
+    ' '
+    'R-C16.2 now recognises the comprehension, filter(), guarded-append and removal-from-a-copy forms of the installable-models filter; R-C16.6 no for loop of the package grows or shrinks the container it iterates.')
 NOT_DECIDED = 'Behaviour under arbitrary routers and model splits.'
 TECHNIQUE = ('CFG must-pass-through with short-circuit expansion '
              '(is_mutable), control dependence of membership on the router '
@@ -109,19 +111,58 @@ def r2_router_guarded_membership(ctx):
                     'router predicate: the stored signature would cover '
                     'models routed to other databases', key='unguarded-add')
     f = p.func('compat.db', 'db_get_installable_models_for_app')
-    ok = False
-    for n in walk_no_nested(f.node):
-        if isinstance(n, (ast.ListComp, ast.GeneratorExp)):
+    from ..util import through_copies
+    pred_calls = [c for c in ast.walk(f.node) if isinstance(c, ast.Call) and
+                  call_name(c) == 'db_router_allows_schema_upgrade']
+
+    def asks_about_this_db(c):
+        if not c.args:
+            return False
+        a = through_copies(f, c.args[0])
+        return (isinstance(a, ast.Attribute) and a.attr == 'db_name') or \
+            (isinstance(a, ast.Name) and a.id in f.params)
+    form = None
+    for n in ast.walk(f.node):
+        # A: comprehension filter
+        if isinstance(n, (ast.ListComp, ast.GeneratorExp, ast.SetComp)):
             for gen in n.generators:
                 for cond in gen.ifs:
-                    for c in ast.walk(cond):
-                        if isinstance(c, ast.Call) and call_name(c) == \
-                                'db_router_allows_schema_upgrade' and c.args \
-                                and 'db_name' in unparse(c.args[0]):
-                            ok = True
+                    if any(c in pred_calls and asks_about_this_db(c)
+                           for c in ast.walk(cond)):
+                        form = form or 'comprehension filter'
+        # D: filter(lambda m: pred(...), models)
+        if isinstance(n, ast.Call) and call_name(n) == 'filter' and n.args \
+                and any(c in pred_calls and asks_about_this_db(c)
+                        for c in ast.walk(n.args[0])):
+            form = form or 'filter()'
+        # B / C: loop with a guarded append, or a guarded removal from a
+        # container other than the one being iterated
+        if isinstance(n, ast.For):
+            for i in ast.walk(n):
+                if not (isinstance(i, ast.If) and any(
+                        c in pred_calls and asks_about_this_db(c)
+                        for c in ast.walk(i.test))):
+                    continue
+                for st in i.body + i.orelse:
+                    for c in ast.walk(st):
+                        if isinstance(c, ast.Call) and \
+                                isinstance(c.func, ast.Attribute):
+                            if c.func.attr in ('append', 'add'):
+                                form = form or 'guarded append'
+                            if c.func.attr in ('remove', 'discard') and \
+                                    unparse(c.func.value) != unparse(n.iter):
+                                form = form or 'guarded removal (from a copy)'
+                    if isinstance(st, ast.Continue):
+                        form = form or 'guarded continue'
+    ok = form is not None
     if ok:
         ctx.ok(f, 'installable models are filtered by '
-               'db_router_allows_schema_upgrade(db_state.db_name, ...)')
+               'db_router_allows_schema_upgrade(db_state.db_name, ...) (%s)'
+               % form)
+    elif pred_calls and all(asks_about_this_db(c) for c in pred_calls):
+        ctx.info('R-C16.2: db_get_installable_models_for_app calls the '
+                 'router predicate in a form the matcher does not know; see '
+                 'R-C16.6 for in-place removal')
     else:
         ctx.finding(f, None, 'db_get_installable_models_for_app no longer '
                     'filters by the router for db_state.db_name: tables '
@@ -438,7 +479,84 @@ def r5_pending_filter_exemptions(ctx):
                len(concrete), test)
 
 
+def r6_no_mutation_of_iterated_container(ctx, rule_id='R-C16.6'):
+    """`for x in L: ... L.remove(x)` skips the element that follows every
+    removed one.  Where the loop is a filter (the router is asked about each
+    model and rejected ones are removed) the skipped element is never shown
+    to the router and stays in the result: a model routed elsewhere gets its
+    table created on this database.  Checked for every loop of the package:
+    the container a `for` iterates is not grown or shrunk in the loop body
+    (unless the loop is left right after)."""
+    ctx.rule(rule_id)
+    p = ctx.program
+    MUT = {'remove', 'append', 'insert', 'pop', 'clear', 'extend', 'add',
+           'discard', 'popitem'}
+    n_loops, hit = 0, False
+    for m in p.modules.values():
+        for f in m.all_funcs():
+            for l in walk_no_nested(f.node):
+                if not isinstance(l, ast.For):
+                    continue
+                it = l.iter
+                if isinstance(it, ast.Call) and it.args and \
+                        unparse(it.func).startswith('six.iter'):
+                    it = it.args[0]
+                elif isinstance(it, ast.Call) and \
+                        isinstance(it.func, ast.Attribute) and \
+                        it.func.attr in ('items', 'keys', 'values') and \
+                        not it.args:
+                    it = it.func.value
+                if not isinstance(it, (ast.Name, ast.Attribute)):
+                    continue
+                n_loops += 1
+                key = unparse(it)
+
+                def scan(stmts):
+                    for k, st in enumerate(stmts):
+                        leaves = any(isinstance(x, (ast.Break, ast.Return,
+                                                    ast.Raise))
+                                     for x in stmts[k + 1:k + 2])
+                        for x in walk_no_nested(st) if not isinstance(
+                                st, (ast.If, ast.For, ast.While, ast.Try,
+                                     ast.With)) else []:
+                            bad = None
+                            if isinstance(x, ast.Call) and \
+                                    isinstance(x.func, ast.Attribute) and \
+                                    x.func.attr in MUT and \
+                                    unparse(x.func.value) == key:
+                                bad = x
+                            if isinstance(x, ast.Subscript) and \
+                                    isinstance(x.ctx, ast.Del) and \
+                                    unparse(x.value) == key:
+                                bad = x
+                            if bad is not None and not leaves:
+                                yield bad
+                        for blk in ('body', 'orelse', 'finalbody'):
+                            b = getattr(st, blk, None)
+                            if isinstance(b, list) and b and \
+                                    isinstance(b[0], ast.stmt):
+                                for y in scan(b):
+                                    yield y
+                        for h in getattr(st, 'handlers', []):
+                            for y in scan(h.body):
+                                yield y
+                for bad in scan(l.body):
+                    hit = True
+                    ctx.finding(f, bad, '%s changes %s (%s) while a for loop '
+                                'iterates it: the element after each removed '
+                                'one is skipped, so it is never tested and '
+                                'stays in the result' % (
+                                    f.qualname, key,
+                                    ' '.join(unparse(bad).split())),
+                                key='mutated-while-iterated:%s' % key)
+    ctx.floor('for loops over a named container in the package', n_loops, 50)
+    if not hit:
+        ctx.ok(('django_evolution', '*'), 'no loop changes the container it '
+               'iterates')
+
+
 def run(ctx):
+    r6_no_mutation_of_iterated_container(ctx)
     r5_pending_filter_exemptions(ctx)
     r1_is_mutable_consults_router(ctx)
     r2_router_guarded_membership(ctx)
